@@ -3,7 +3,7 @@ R-CONST language-tag sigil, R-SCOPE what the datatype decision looks at, R-TS st
 R-IDX inclusive/exclusive index kinds, R-BOUND bounds-check adequacy, R-STALE snapshot of a field the loop updates."""
 import ast
 import hashlib
-from ..core import walk_own, norm, is_self_attr, parent_map, AnalysisError, lit, is_lit, NOLIT
+from ..core import walk_own, norm, is_self_attr, parent_map, AnalysisError, lit, lits, is_lit, NOLIT
 from ..report import Ob
 from ..abseval import Evaluator, Opaque
 
@@ -61,9 +61,7 @@ def lang_sigil(ctx, clause):
         consts = set()
         for x in walk_own(tok.node):
             if isinstance(x, ast.Compare) and len(x.ops) == 1 and isinstance(x.ops[0], (ast.In, ast.Eq)):
-                for y in ast.walk(x.comparators[0]):
-                    if isinstance(lit(y), str):
-                        consts.add(lit(y))
+                consts |= {v for v in lits(x.comparators[0]) if isinstance(v, str)}
         ok = sig in consts
         obs.append(Ob(clause, "R-CONST", "R-CONST|lang-sigil|scanner-tests-the-predicate-sigil", tok.loc(), ok,
                       "the literal scanner tests %r after the closing quote, the sigil the language-tag predicate looks for" % sig if ok else
@@ -385,8 +383,9 @@ def prefix_table_reaches_datatypes(ctx, clause):
         # and builds `...^^<` + expansion (decided behaviourally by the document-table row "prefixed datatype")
         cls = p.find_class("BigTtlTriplesYielder")
         for m in cls.methods.values():
-            src_txt = ast.unparse(m.node)
-            if "self._prefixes[" in src_txt and "^^" in src_txt and '"<"' in src_txt.replace("'", '"'):
+            reads_table = any(isinstance(x, ast.Subscript) and is_self_attr(x.value, "_prefixes") for x in walk_own(m.node))
+            strs = [v for v in lits(m.node) if isinstance(v, str)]
+            if reads_table and any("^^" in v for v in strs) and any("<" in v for v in strs):
                 ok = True
     return [Ob(clause, "R-FLOW", "R-FLOW|prefix-table-reaches|decide_literal_type", dl.loc(), ok,
                "the declared prefixes reach the datatype expansion" if ok else
